@@ -1,5 +1,6 @@
 import CuriesVerif.Program
 import CuriesVerif.Spec.Answer
+import CuriesVerif.Spec.Reconcile
 
 /-!
 # Spec verdict on observed histories
@@ -24,10 +25,17 @@ def same : Val → Val → Bool
   | a, b => a == b
 end Val
 
+/-- how a slot was derived from another one whose records had been observed -/
+inductive Derivation where
+  | remapCurie (before : List Record) (rm : List (Str × Str))
+  | remapUri (before : List Record) (rm : List (Str × Str))
+  | rewire (before : List Record) (rm : List (Str × Str))
+
 structure SlotObs where
   slot : Nat
   recs : Option (List Record) := none
   delim : Option Str := none
+  derived : Option Derivation := none
 
 abbrev SlotTable := List SlotObs
 
@@ -48,6 +56,9 @@ def Step.target : Step → Option Nat
   | .query .. => none
   | .dups .. => none
   | .fresh dst .. => some dst
+  | .remapCurie dst .. => some dst
+  | .remapUri dst .. => some dst
+  | .rewire dst .. => some dst
   | .loadPm dst .. => some dst
   | .loadPriority dst .. => some dst
   | .loadReverse dst .. => some dst
@@ -77,6 +88,25 @@ def checkInit (idx : Nat) (what : String) (recs : Except Err (List Record)) (str
 
 def checkStep (idx : Nat) (t : SlotTable) (st : Step) (obs : Val) : SlotTable × List String :=
   match st with
+  | .remapCurie dst src rm =>
+    let errs := match obs with
+      | .none => []
+      | .err e => if [Err.dupKeys, .dupValues, .inconsistent, .cycle].contains e then []
+          else [s!"step {idx}: remap_curie_prefixes raised {e.name}, not one of its four documented errors"]
+      | _ => []
+    (t.put { slot := dst, derived := (t.get src).recs.map fun b => .remapCurie b rm }, errs)
+  | .remapUri dst src rm =>
+    let errs := match obs with
+      | .none => if Spec.C12.transitive rm then [s!"step {idx}: remap_uri_prefixes accepted a mapping with a string that is both key and value"] else []
+      | .err .transitive => if Spec.C12.transitive rm then [] else [s!"step {idx}: TransitiveError although no string is both key and value"]
+      | _ => []
+    (t.put { slot := dst, derived := (t.get src).recs.map fun b => .remapUri b rm }, errs)
+  | .rewire dst src rm => (t.put { slot := dst, derived := (t.get src).recs.map fun b => .rewire b rm }, [])
+  | .fresh dst src extra =>
+    (t.put { slot := dst },
+      match (t.get src).recs with
+      | some recs => checkInit idx "Converter(records of an existing converter + new records)" (.ok (recs ++ extra)) true obs
+      | none => [])
   | .init dst recs _ strict => (t.put { slot := dst }, checkInit idx "Converter(...)" (.ok recs) strict obs)
   | .loadPm dst pm _ strict =>
     (t.put { slot := dst }, checkInit idx "from_prefix_map" (.ok (Loaders.prefixMapRecords pm)) strict obs)
@@ -109,6 +139,13 @@ def checkStep (idx : Nat) (t : SlotTable) (st : Step) (obs : Val) : SlotTable ×
     | "records", .recs l =>
       let errs := (if Spec.unique l then [] else [s!"step {idx}: observed records are not one-owner unique"])
         ++ (if l.all Spec.recOK then [] else [s!"step {idx}: a record lists its own canonical value among its synonyms"])
+        ++ (match o.derived with
+            | some (.remapCurie before rm) => (Spec.C11.ok before l rm).map fun m => s!"step {idx}: remap_curie_prefixes: {m}"
+            | some (.remapUri before rm) =>
+              (Spec.C12.ok before l (Spec.C12.selUri rm)).map fun m => s!"step {idx}: remap_uri_prefixes: {m}"
+            | some (.rewire before rm) =>
+              (Spec.C12.ok before l (Spec.C12.selRewire rm)).map fun m => s!"step {idx}: rewire: {m}"
+            | none => [])
       (t.put { o with recs := some l }, errs)
     | "delimiter", .str d => (t.put { o with delim := some d }, [])
     | _, _ =>
